@@ -218,6 +218,7 @@ int main(void) {
     } else if (op == 'I') {
       unsigned long long seed = strtoull(p, &p, 10); unsigned feat = (unsigned)strtoul(p, &p, 10); int nbody = (int)strtol(p, &p, 10);
       int rep = (int)strtol(p, &p, 10), integ = (int)strtol(p, &p, 10);
+      int dflags = (int)strtol(p, &p, 10);      // extra disableflags (option combinations)
       int custom = feat == 0xFFFFFFFFu;
       mjModel* m = custom ? c05_custom(seed) : mjg_model(seed, feat, nbody, NULL);
       if (!m) { printf("ERR compile\n"); fflush(stdout); continue; }
@@ -245,20 +246,25 @@ int main(void) {
       if (mjg_chance(&r, 0.2)) m->opt.disableactuator = 1 << mjg_int(&r, 3);
       for (int i = 0; i < m->nv && !custom; i++) if (m->jnt_type[m->dof_jntid[i]] != mjJNT_FREE && mjg_chance(&r, 0.5)) m->dof_damping[i] = mjg_range(&r, 0, 2);
       for (int i = 0; i < m->ntendon && !custom; i++) if (mjg_chance(&r, 0.5)) m->tendon_damping[i] = mjg_range(&r, 0, 1);
+      m->opt.disableflags |= dflags;
+      // Euler treats only JOINT damping implicitly: keep tendon damping out of the Euler cases
+      if (integ == mjINT_EULER) for (int i = 0; i < m->ntendon; i++) m->tendon_damping[i] = 0;
+      if (integ == mjINT_EULER && custom) for (int i = 0; i < m->nv; i++) if (m->jnt_type[m->dof_jntid[i]] != mjJNT_FREE && mjg_chance(&r, 0.7)) m->dof_damping[i] = mjg_range(&r, 0.1, 3);
       mjData* d = mj_makeData(m); mjData* w = mj_makeData(m);
       mjg_random_state(m, d, &r, 2.0);
       for (int i = 0; i < m->nu; i++) d->ctrl[i] = mjg_range(&r, -2.5, 2.5);
       int nv = m->nv; mjtNum eps = 1e-6;
       int err = 0;
-      mjtNum* buf = (mjtNum*)calloc((size_t)(4 * nv * nv + 4 * nv + 8), sizeof(mjtNum));
-      mjtNum *Sp = buf, *Sm = buf + nv * nv, *Pp = buf + 2 * nv * nv, *Pm = buf + 3 * nv * nv, *S0 = buf + 4 * nv * nv, *P0 = S0 + nv;
+      mjtNum* buf = (mjtNum*)calloc((size_t)(4 * nv * nv + 8 * nv + 8), sizeof(mjtNum));
+      mjtNum *Sp = buf, *Sm = buf + nv * nv, *Pp = buf + 2 * nv * nv, *Pm = buf + 3 * nv * nv, *S0 = buf + 4 * nv * nv, *P0 = S0 + nv, *B0 = P0 + nv, *Bp = B0 + nv, *Bm = Bp + nv;
       if (MJG_TRY) {
         mj_forward(m, d);
-        for (int k = 0; k < nv; k++) { S0[k] = d->qfrc_smooth[k]; P0[k] = d->qfrc_passive[k] + d->qfrc_actuator[k]; }
+        for (int k = 0; k < nv; k++) { S0[k] = d->qfrc_smooth[k]; P0[k] = d->qfrc_passive[k] + d->qfrc_actuator[k]; B0[k] = d->qfrc_damper[k]; }
         for (int i = 0; i < nv; i++) for (int sgn = 0; sgn < 2; sgn++) {
           mj_copyData(w, m, d);
           w->qvel[i] += sgn ? -eps : eps;
           mj_forward(m, w);
+          (sgn ? Bm : Bp)[i] = w->qfrc_damper[i];
           for (int k = 0; k < nv; k++) {
             (sgn ? Sm : Sp)[k * nv + i] = w->qfrc_smooth[k];
             (sgn ? Pm : Pp)[k * nv + i] = w->qfrc_passive[k] + w->qfrc_actuator[k];
@@ -298,6 +304,8 @@ int main(void) {
           printf(" ;");
           for (int wv = m->tendon_adr[t]; wv < m->tendon_adr[t] + m->tendon_num[t]; wv++) if (m->wrap_type[wv] == mjWRAP_JOINT) printf(" %d", m->jnt_dofadr[m->wrap_objid[wv]]);
         }
+        // damper force of each dof at qvel[i] +- eps (Euler: implicit joint damping), and the flags
+        printf(" |"); pv(B0, nv); printf(" |"); pv(Bp, nv); printf(" |"); pv(Bm, nv); printf(" | %d", m->opt.disableflags);
         free(Md); free(v0);
         MJG_END;
       } else err = 1;
